@@ -65,9 +65,11 @@ func truthful(t *testing.T, backend sim.Backend) {
 	if ev.Thorough() {
 		maxPoints = 1000
 	}
-	rules := map[string]bool{"ack": true, "lock": true, "insert": true, "ww": true, "nolock": true}
+	// the rules of this property: acknowledgement truthfulness, atomicity (always on), no lock left; the isolation
+	// rules (reads, write-write, inserts) belong to C01 and are judged there
+	rules := map[string]bool{"ack": true, "nolock": true}
 	if backend == sim.Mock {
-		rules["read"], rules["ext"] = true, true // unistore's resolver client runs on a skewed clock: its reads are not judged
+		rules["read"] = true // unistore's resolver client runs on a skewed clock: its reads are not judged
 	}
 	rapid.Check(t, func(t *rapid.T) {
 		p := scen.Gen(t, backend)
